@@ -486,6 +486,8 @@ def eval_finite(case):
     def nondeg_herm(site):
         out = []
         for nme_ in plain_ops(site):
+            if np.any(site.get_op(nme_).qtotal != 0):
+                continue   # npc.eigh needs a charge-neutral operator (e.g. not Sx with conserved parity)
             m_ = site.get_op(nme_).to_ndarray()
             if np.linalg.norm(m_ - m_.conj().T) < 1e-13:
                 w_ = np.linalg.eigvalsh(m_)
